@@ -495,6 +495,7 @@ type mOutcome struct {
 	Labels  []string
 	Known   []string
 	NonTriv bool
+	Skipped string
 }
 
 func mfail(prop, clause, sig, format string, a ...any) *verifkit.Failure {
